@@ -77,6 +77,16 @@ class NoneV(Val):
         return 'NoneV'
 
 
+class TermV(Val):
+    """A value of an uninterpreted sort (e.g. a label of sort Name): equality only."""
+
+    def __init__(self, t):
+        self.t = t
+
+    def __repr__(self):
+        return 'TermV(%s)' % self.t
+
+
 NONE = NoneV()
 
 
@@ -398,6 +408,8 @@ class Engine:
 
 
 def values_equal(a, b):
+    if isinstance(a, TermV) and isinstance(b, TermV):
+        return a.t == b.t if a.t.sort() == b.t.sort() else BoolVal(False)
     """Structural equality of a computed value with a specification value (tuples element-wise, ints by term)."""
     if isinstance(a, IntV) and isinstance(b, IntV):
         return And(a.t == b.t, BoolVal(a.tag == b.tag or b.tag is None))
@@ -654,6 +666,8 @@ class Interp:
                 except _Break:
                     break
             return
+        if isinstance(it, ObjV) and '__iter__' in it.fields:
+            it = self.call(it.fields['__iter__'], [it], {})
         if isinstance(it, SeqV):
             it = IterV(it.at, it.length, it.name)
         if not isinstance(it, IterV):
@@ -673,6 +687,8 @@ class Interp:
         self.havoc(mod, env)
         k = p.fresh_int('k')
         p.assume(And(k >= 0, k <= it.length))
+        for o in getattr(spec, 'havoc_objs', ()):
+            o.havoc(p)
         if spec.ghost_havoc:
             spec.ghost_havoc(p, env)
         for nm, f in spec.invariant(EnvView(env, p), k):
@@ -907,6 +923,11 @@ class Interp:
             raise Unsupported('nested comprehension')
         g = node.generators[0]
         it = self.eval(g.iter, env)
+        cspec = self.loops.get('comprehension_loops', {}).get(self.stmt_ordinals.get(id(node)))
+        if cspec is not None:
+            return self.comprehension_loop(node, g, it, env, cspec)
+        if isinstance(it, ObjV) and '__iter__' in it.fields:
+            it = self.call(it.fields['__iter__'], [it], {})
         if isinstance(it, (IterV, SeqV)) and not g.ifs and isinstance(node, (ast.GeneratorExp, ast.ListComp)):
             # element-wise closed form of a pure map over a contract iterable: same length, k-th element = elt[x := it[k]]
             def at(k, _it=it, _env=dict(env)):
@@ -926,6 +947,43 @@ class Interp:
         if isinstance(node, ast.SetComp):
             raise Unsupported('set comprehension without closed form')
         return ListV(out)
+
+    def comprehension_loop(self, node, g, it, env, spec):
+        """An impure comprehension (conditions with side effects) executed as a loop with an invariant over the ghost
+        accumulator: spec.invariant(E, k, acc) ; spec.acc0 ; spec.extend(acc, elt) -> acc' ; spec.result(acc) -> Val ;
+        spec.havoc(path) refreshes the heap objects the conditions may mutate."""
+        p = self.path
+        if isinstance(it, ObjV) and '__iter__' in it.fields:
+            it = self.call(it.fields['__iter__'], [it], {})
+        if isinstance(it, SeqV):
+            it = IterV(it.at, it.length, it.name)
+        if not isinstance(it, IterV):
+            raise Unsupported('comprehension loop over %s' % type(it).__name__)
+        tag = self.stmt_ordinals.get(id(node))
+        p.assume(it.length >= 0)
+        if getattr(spec, 'on_entry', None):
+            spec.on_entry(p, env)
+        for nm, f in spec.invariant(EnvView(env, p), IntVal(0), spec.acc0):
+            p.oblige('inv.entry@%s/%s' % (tag, nm), 'inv.entry', f)
+        k = p.fresh_int('k')
+        p.assume(And(k >= 0, k <= it.length))
+        acc = spec.fresh_acc(p)
+        spec.havoc(p)
+        for nm, f in spec.invariant(EnvView(env, p), k, acc):
+            p.assume(f)
+        if p.branch(k < it.length):
+            p.ghost['k'] = k
+            inner = dict(env)
+            self.assign(g.target, it.at(k), inner)
+            if it.facts:
+                p.assume(it.facts(k))
+            keep = all(p.branch_truthy(self.eval(c, inner)) for c in g.ifs)
+            acc2 = spec.extend(acc, self.eval(node.elt, inner)) if keep else acc
+            for nm, f in spec.invariant(EnvView(env, p), k + 1, acc2):
+                p.oblige('inv.preserve@%s/%s' % (tag, nm), 'inv.preserve', f)
+            raise PathEnd('comprehension body done')
+        p.assume(k == it.length)
+        return spec.result(p, acc)
 
     @staticmethod
     def match_tz(node):
@@ -1000,6 +1058,10 @@ class Interp:
                 # lemma instance B9 (extensionality on naturals): distinct naturals differ in some bit
                 self.path.assume(bits.ext_instance(a.t, b.t, self.path.fresh_int('wext')))
             return f(a.t, b.t)
+        if isinstance(a, TermV) and isinstance(b, TermV) and isinstance(op, (ast.Eq, ast.NotEq)):
+            if a.t.sort() != b.t.sort():
+                return BoolVal(isinstance(op, ast.NotEq))
+            return (a.t == b.t) if isinstance(op, ast.Eq) else (a.t != b.t)
         if isinstance(op, (ast.Is, ast.IsNot)):
             if isinstance(a, NoneV) or isinstance(b, NoneV):
                 same = isinstance(a, NoneV) and isinstance(b, NoneV)
